@@ -253,6 +253,13 @@ example : (match newCode [(0, 1), (1, 1)], newCode [(0, 1)] with
         | .error _ => false)
     | _, _ => false) = true := by decide +kernel
 
+-- Why `C19_fill` asks for room in the buffer (`hroom`), and why the code only ever refills when it is short of bits: a
+-- refill of a FULL buffer from which no whole byte has been consumed adds nothing, and `fill_buf` takes "nothing new
+-- arrived" for the end of the input - the reader is dead although two bytes are still unread (what an unconditional
+-- `fill_buf()` before the sub-image loop would do; the seeded change RAC19)
+example : let s : BitBuf := { (BitBuf.new 2 [1, 2, 3, 4]).fill with bitPos := 3 }
+    s.fill.live = false ∧ s.fill.rest = [3, 4] ∧ (s.fill.read 16).isNone = true := by decide
+
 -- Non-vacuity: a run of four fields over a 2-byte buffer (refills in between), ending past the end of data
 example : runBufOps [.read 3, .read 7, .read 8, .read 8, .read 8, .read 8] (BitBuf.new 2 [0xA5, 0x3C, 0xFF, 0x01, 0x80]) =
     [some 5, some 20, some 207, some 127, some 0, none] := by decide
